@@ -61,7 +61,7 @@ def gen_rfcomm(rng, tier, seed):
             open_set.add(d)
         else:
             ops.append(['settle'])
-    return {'a': a, 'b': b, 'ndlc': ndlc, 'ops': ops, 'shutdown': rng.random() < 0.5, 'profile': rng.choice(PROFILE_NAMES)}
+    return {'a': a, 'b': b, 'ndlc': ndlc, 'ops': ops, 'shutdown': rng.random() < 0.5, 'profile': rng.choice(PROFILE_NAMES), 'late_sink': rng.random() < 0.3}
 
 
 def parse_rfcomm(frame: bytes):
@@ -204,10 +204,18 @@ def run_rfcomm(case):
             rx[i] = [bytearray(), bytearray()]
             want[i] = [bytearray(), bytearray()]
             d0.sink = lambda data, i=i: rx[i][0].extend(data)
-            d1.sink = lambda data, i=i: rx[i][1].extend(data)
             # what each sender may do: bounded by what the receiver announced
             wire[0].add(d0.dlci, b['mfs'], b['credits'])
             wire[1].add(d0.dlci, a['mfs'], a['credits'])
+            if case.get('late_sink'):
+                # the initiator talks as soon as the DLC is open; the acceptor's application attaches its sink a little later and
+                # must then be handed what arrived meanwhile, in the order it was written
+                greet = bytes((i * 31 + k) & 0xFF for k in range(int(2.5 * min(b['mfs'], 300))))
+                want[i][1] += greet
+                sim.call(d0.write, greet)
+                sim.loop.settle(vt_budget=2.0)
+                sim.probe('data_arrived_before_the_sink_was_attached')
+            d1.sink = lambda data, i=i: rx[i][1].extend(data)
             for side, d in enumerate((d0, d1)):
                 if d.state != d.State.CONNECTED:
                     sim.violation_once('state', f'rfcomm:dlc-not-connected-after-open:{"initiator" if side == 0 else "acceptor"}', d.state.name)
